@@ -100,4 +100,14 @@ PROPERTIES = {
         "targets": [{"name": "c04_algo_g%d" % g, "src": "c04_algorithms.cpp", "mode": "asan", "rapidcheck": True,
                      "flags": ["-DC04_GROUP=%d" % g, '-DVERIF_TARGET_NAME="c04_algo_g%d"' % g], "subtargets": ["algo"], "group": g} for g in range(8)],
     },
+    "C10": {
+        "level": "fault_enumeration",
+        "assumptions": [
+            "swap (and recreate with an allocator argument) between images whose non-propagating allocators compare unequal is outside the domain (undefined by the container requirements; GIL asserts it)",
+            "after an injected failure the target may hold its old value, the new value or be empty (basic guarantee): only structural validity, the ledger and the element live-set are checked, and the history continues",
+            "contents after recreate without a fill value are unspecified for trivial pixel types and are not compared",
+        ],
+        "targets": [{"name": "c10_hist_k%d" % k, "src": "c10_image_container.cpp", "mode": "asan", "rapidcheck": True,
+                     "flags": ["-DC10_KIND=%d" % k, '-DVERIF_TARGET_NAME="c10_hist_k%d"' % k], "subtargets": ["hist"], "kind": k} for k in range(7)],
+    },
 }
